@@ -111,7 +111,8 @@ pub fn runhist(args: &crate::Args) -> Report {
         };
         mark(&format!("OP_END {i} {}", if ok { "ok" } else { "err" }));
         let ticket = w.mem.as_ref().map(|m| m.current_ticket().seq_no);
-        states.push(json!({"op_index": i, "op": opname, "ok": ok, "docs": doc_state(w, contents), "ticket_seq": ticket}));
+        let wal = w.mem.as_ref().map(|m| { let st = memvid_core::verif_hooks::handle_state(m); json!({"write_head": st[0], "pending_bytes": st[2], "sequence": st[3], "wal_size": st[6]}) });
+        states.push(json!({"op_index": i, "op": opname, "ok": ok, "docs": doc_state(w, contents), "ticket_seq": ticket, "wal": wal}));
         ok && !w.failed
     };
     if step(&mut w, 0, &json!({"op": "create"}), &mut contents, &mut states) {
@@ -120,9 +121,14 @@ pub fn runhist(args: &crate::Args) -> Report {
             let roll = w.rng.below(100);
             let active: Vec<u64> = w.model.frames.iter().filter(|m| m.status == FrameStatus::Active && !m.is_chunk && !w.has_pending_op_on(m.id)).map(|m| m.id).collect();
             let n = w.counter + 1;
-            let op = if roll < 50 || active.is_empty() {
+            // "wrap" profile: commit just before the head reaches the region end, so that the next append wraps to the
+            // region start (an append that finds pending records in its way grows the region instead)
+            let near_end = profile == "wrap" && w.mem.as_ref().is_some_and(|m| { let st = memvid_core::verif_hooks::handle_state(m); st[2] > 0 && st[0] + 9000 > st[6] });
+            let op = if near_end {
+                json!({"op": "commit"})
+            } else if roll < 50 || active.is_empty() {
                 let token = w.next_token();
-                let class = if profile == "tiny" { [0u64, 1, 2, 3, 6, 8, 0, 4][w.rng.below(8) as usize] } else { w.rng.below(if profile == "corpus" { 9 } else { 10 }) };
+                let class = if profile == "tiny" { [0u64, 1, 2, 3, 6, 8, 0, 4][w.rng.below(8) as usize] } else if profile == "wrap" || profile == "churn" { [20u64, 20, 20, 0, 5][w.rng.below(5) as usize] } else { w.rng.below(if profile == "corpus" { 9 } else { 10 }) };
                 let mut op = json!({"op": "put", "token": token, "uri": format!("mv2://{}/Doc{n}", w.rng.pick(&["docs", "Notes"])), "ts": 1_700_000_000 + n as i64 * 10, "instant": w.rng.chance(1, 4), "gen": w.rng.next(),
                     "title": format!("Title {n}"), "tags": if w.rng.chance(1, 2) { vec![format!("tag{}", n % 3)] } else { vec![] }});
                 match class {
@@ -130,6 +136,8 @@ pub fn runhist(args: &crate::Args) -> Report {
                     4 => { let len = w.rng.usize(2380, 2420); op["text"] = json!(text_of(&mut w.rng, len, &token)); }
                     5 => { let len = w.rng.usize(2600, 5000); op["text"] = json!(text_of(&mut w.rng, len, &token)); }
                     6 => { op["bin_len"] = json!(w.rng.usize(1, 900)); }
+                    // incompressible 3-6 KiB records: with a commit every few puts the 64 KiB log wraps within ~20 puts
+                    20 => { op["bin_len"] = json!(w.rng.usize(3000, 6000)); }
                     7 => { op["bin_len"] = json!(w.rng.usize(14_000, 17_000)); }
                     8 => { op["text"] = json!(format!("Carol{} works at Globex Corp. {}", token.replace(|c: char| c.is_ascii_digit(), "x"), text_of(&mut w.rng, 60, &token))); op["emb"] = json!(vec![n as f32, 1.0, 0.5, 0.25]); }
                     _ => { op["bin_len"] = json!(w.rng.usize(50_000, 70_000)); }
@@ -137,8 +145,12 @@ pub fn runhist(args: &crate::Args) -> Report {
                 op
             } else if roll < 60 {
                 let token = w.next_token();
-                let with_payload = w.rng.chance(1, 2);
-                json!({"op": "update", "target": w.rng.pick(&active), "gen": if with_payload { Some(w.rng.next()) } else { None }, "token": token, "title": if w.rng.chance(1, 2) { Some(format!("Upd {n}")) } else { None }})
+                let target = w.rng.pick(&active);
+                // a payload-less update of a chunked document loses its content (known finding of C07); the file-level engines
+                // are about other things, so they give chunked documents a new payload
+                let chunked = w.model.frames.get(target as usize).is_some_and(|m| !m.chunk_children.is_empty());
+                let with_payload = w.rng.chance(1, 2) || chunked;
+                json!({"op": "update", "target": target, "gen": if with_payload { Some(w.rng.next()) } else { None }, "token": token, "title": if w.rng.chance(1, 2) { Some(format!("Upd {n}")) } else { None }})
             } else if roll < 68 {
                 json!({"op": "delete", "target": w.rng.pick(&active)})
             } else if roll < 88 {
